@@ -7,5 +7,6 @@ pub mod gen;
 pub mod inputs;
 pub mod props;
 pub mod reader_model;
+pub mod refs;
 pub mod source;
 pub mod writer_model;
